@@ -175,7 +175,7 @@ def check_run(C, F, mode, key, outs, mod, I, via_io=False):
         C.note("unreviewed-external-callees", "%s: %s" % (short, sorted(I.unknown_calls)))
     n_ok = n_err = 0
     for ctl, v, s in outs:
-        err = bool(s.mon.get("err"))
+        err = bool(s.mon.get("err_parse", s.mon.get("err")))     # errors recorded by parse() itself
         if ctl == PANIC:
             C.ob("C01/O-bump", "%s: panic reachable %s" % (short, v), False, "a panic is reachable on some token sequence: %s" % (v,), str(v[1]) if isinstance(v, tuple) and len(v) > 1 else "")
             continue
